@@ -206,6 +206,22 @@ Fixpoint cnt_set (cs : list (N * counts)) (c : N) (v : counts) : list (N * count
   | (k, w) :: r => if k =? c then (k, v) :: r else (k, w) :: cnt_set r c v
   end.
 
+(* gevent Event: set() schedules the notifier callback only when somebody is linked (waiting);
+   while that callback is pending, a NEW wait() on the already-set event also blocks until it ran
+   (gevent's _wait: "already notifying: wait to be notified", for fairness). *)
+Fixpoint has_waiter (ser : N) (cs : list conn) : bool :=
+  match cs with
+  | [] => false
+  | x :: r => match c_st x with BWait w => (w =? ser) || has_waiter ser r | _ => has_waiter ser r end
+  end.
+
+Fixpoint done_pending (ser : N) (es : list event) : bool :=
+  match es with
+  | [] => false
+  | EvDone w :: r => (w =? ser) || done_pending ser r
+  | _ :: r => done_pending ser r
+  end.
+
 (* _mark_finished, jobs.py:114-137.  `upd` are the keyword arguments. *)
 Definition mark_finished (ser : N) (upd : job -> job) (s : state) : state :=
   match getjob (s_jobs s) ser with
@@ -217,7 +233,7 @@ Definition mark_finished (ser : N) (upd : job -> job) (s : state) : state :=
       let fin := mkJob (j_serial j) (j_id j) (j_chan j) (j_prio j) (j_timeout j) true
                        (j_err j') (j_res j') (j_info j) (j_ttl j') in
       let s1 := set_jobs (setjob ser (fun _ => fin) (s_jobs s)) s in
-      let s2 := set_hub (s_hub s1 ++ [EvDone ser]) s1 in              (* finish_event.set() *)
+      let s2 := set_hub (if has_waiter ser (s_conns s1) then s_hub s1 ++ [EvDone ser] else s_hub s1) s1 in   (* finish_event.set() *)
       set_cnt (cnt_set (s_cnt s2) (j_chan j) (bump (j_err fin) (cnt_get (s_cnt s2) (j_chan j)))) s2
   end.
 
@@ -494,7 +510,7 @@ Definition step (s : state) (o : op) : state * list out :=
         match getjob (s_jobs s) ser with
         | None => (s, [OKeyErr])
         | Some j =>
-          if j_done j then (s, [OReleased c j])
+          if j_done j && negb (done_pending ser (s_hub s)) then (s, [OReleased c j])
           else
             let cn := get_conn (s_conns s) c in
             (set_conns (put_conn (s_conns s) (mkConn c (BWait ser) (c_run cn))) s, [OBlocked])
